@@ -346,12 +346,12 @@ def version_collisions(ctx):
             if lpairs and it % 3 == 2:
                 # same descriptors and master version, two bundled LOCAL table versions
                 lp = rng.choice(lpairs)
-                ids, (ma, mb) = cases.local_pair_messages(rng, lp, compressed=rng.random() < 0.3)
+                ids, (ma, mb) = cases.local_pair_messages(rng, lp, compressed=rng.random() < 0.3, form=rng.choice(['plain', 'marker', 'assoc', 'first-order']))
                 pair = (lp[0], lp[1][2], lp[2][2])
                 ctx.count('local_table_collision_pairs')
             else:
                 pair = rng.choice(pairs)
-                ids, (ma, mb) = cases.version_pair_messages(rng, pair, compressed=rng.random() < 0.3)
+                ids, (ma, mb) = cases.version_pair_messages(rng, pair, compressed=rng.random() < 0.3, form=rng.choice(['plain', 'marker', 'assoc', 'first-order']))
         except (R.Unsupported, KeyError):
             continue
         msgs = {'A': ma.bytes, 'B': mb.bytes}
